@@ -32,6 +32,7 @@ func init() {
 func runC27(c *Ctx) {
 	w := c.W
 	c27Extras(c)
+	c27Extras3(c)
 	c.DeadObligations(c.W.FuncsOfPkg("z/tls"), "package tls")
 	c.alertSummary()
 	// ---- A. verifyServerCertificate
